@@ -27,7 +27,7 @@ func (s *Server) execStmt(c *conn, p *prepared, params []any, seq int, lk *lockH
 		return nil, errf("25P02", "current transaction is aborted, commands ignored until end of transaction block")
 	}
 	if c.tx == nil {
-		c.tx = newTxn(c, false)
+		c.tx = newTxn(c, false).begin(s.now())
 	}
 	x := &execCtx{s: s, c: c, tx: c.tx, params: params}
 	for attempt := 0; ; attempt++ {
@@ -62,7 +62,7 @@ func (s *Server) execTx(c *conn, st *txStmt, seq int) (*result, *pgErr) {
 			return nil, errf("25P02", "current transaction is aborted, commands ignored until end of transaction block")
 		}
 		if c.tx == nil {
-			c.tx = newTxn(c, true)
+			c.tx = newTxn(c, true).begin(s.now())
 		}
 		c.tx.explicit = true // BEGIN inside a multi-statement implicit transaction makes it explicit
 		return &result{tag: "BEGIN"}, nil
@@ -120,6 +120,15 @@ func (x *execCtx) run(p *prepared) (*result, *pgErr) {
 	}
 	switch st := p.ast.(type) {
 	case *selectStmt:
+		if p.info != nil && p.info.returnsRows { // prepared earlier: the catalog may have changed since (e.g. select * + add column)
+			same := len(p.info.cols) == len(info.cols)
+			for i := 0; same && i < len(info.cols); i++ {
+				same = p.info.cols[i].typ.OID == info.cols[i].typ.OID
+			}
+			if !same {
+				return nil, errf("0A000", "cached plan must not change result type")
+			}
+		}
 		rel, err := x.runSelect(st, nil)
 		if err != nil {
 			return nil, err
